@@ -513,7 +513,7 @@ func TestVerif_C04(t *testing.T) {
 		for st := -1000; st <= 70000; st++ {
 			c := mk()
 			c.Status = st
-			c04RunSpec(r, l, c, entries[(st+1000)%3])
+			c04RunSpec(r, l, c, entries[(st+1000)%len(entries)])
 			if len(c.violations()) > 0 {
 				l.nontrivN++
 			}
@@ -539,7 +539,7 @@ func TestVerif_C04(t *testing.T) {
 		rng := l.Rng
 		for i := 0; i < per; i++ {
 			c, _ := randInvalidCfg(rng, 1+i%6)
-			entry := entries[rng.IntN(3)]
+			entry := entries[rng.IntN(len(entries))]
 			c04RunSpec(r, l, c, entry)
 			l.NontrivialKey(specKey(c), entry)
 			if l.Batch == 0 && i < 2 {
@@ -587,7 +587,7 @@ func TestVerif_C04(t *testing.T) {
 			if rng.IntN(6) == 0 {
 				cfg.PrivateNetworkAccess = !cfg.PrivateNetworkAccess
 			}
-			entry := entries[rng.IntN(3)]
+			entry := entries[rng.IntN(len(entries))]
 			c04RunRaw(r, l, cfg, entry)
 			if ok, _ := recogConfig(&cfg); !ok {
 				l.NontrivialKey(cfgString(&cfg), entry)
